@@ -60,9 +60,9 @@ CHECK = {
     "race": True,
     "technique": "generated concurrent workloads (rapid) executed under the Go race detector; every detector report is a counterexample",
     "rule": ("free-running scenarios (gates open) over generated UDP traffic: imports, tag add/edit/delete, mark updates, converter attach/detach, views "
-             "with searches, converter resets, add/remove of a PCAP-over-IP endpoint whose peer is a local listener that streams a few datagrams per connection "
-             "(so the endpoint reader, the packet handler and the imports it triggers run), while seven pollers (Status, KnownPcaps, ListTags, ListConverters, "
-             "ConverterStderr, ListPcapOverIPEndpoints, Config) and an event listener "
+             "with searches, converter resets, webhook add/remove, configuration updates, add/remove of a PCAP-over-IP endpoint whose peer is a local listener that streams a few datagrams per connection "
+             "(so the endpoint reader, the packet handler and the imports it triggers run), while eight pollers (Status, KnownPcaps, ListTags, ListConverters, "
+             "ConverterStderr, ListPcapOverIPEndpoints, ListPcapProcessorWebhooks, Config) and an event listener that JSON-encodes every event (as the websocket handler does) "
              "run concurrently; a quarter of the cases stays alive >1.1 s so the periodic tag-event worker ticks. Oracle: the Go race detector "
              "(halt_on_error=0); each report is reduced to the unordered pair of innermost pkappa2 functions of the two accesses, which is the "
              "finding's signature. Non-trivial: >=3 kinds of background job ran; distinct = distinct histories."),
